@@ -69,6 +69,8 @@ type EngineRunner struct {
 	// first data file written entirely under the current DataFileSize (files that were
 	// active in an earlier session may have been filled under another limit)
 	sessionFirstFile uint32
+	so               *syncOracle
+	batchSync        bool
 }
 
 // checkFileLimit (C17): a data file exceeds DataFileSize only when it holds a single record
@@ -187,15 +189,19 @@ func (r *EngineRunner) installHooks() {
 		var ev string
 		switch kind {
 		case "open":
-			if _, err := os.Stat(path); err == nil {
+			if st, err := os.Stat(path); err == nil {
 				ev = "O " + name
+				r.so.event(r, "openexisting", name, st.Size())
 			} else {
 				ev = "C " + name
+				r.so.event(r, "create", name, 0)
 			}
 		case "write":
 			ev = fmt.Sprintf("W %s %d", name, n)
+			r.so.event(r, "write", name, n)
 		case "sync":
 			ev = "S " + name
+			r.so.event(r, "sync", name, 0)
 		case "close":
 			ev = "X " + name
 		case "truncate":
@@ -332,6 +338,8 @@ func (r *EngineRunner) Exec(f []string) (res string) {
 		return ""
 	case "open":
 		r.opts = parseOpts(f[2:], r.dir())
+		r.so.reset()
+		r.so.opKind = "other"
 		db, err := kv.Open(r.opts)
 		if err != nil {
 			return "err " + EngErr(err) + r.takeEvents(false)
@@ -345,7 +353,9 @@ func (r *EngineRunner) Exec(f []string) (res string) {
 		return "ok" + r.takeEvents(false)
 	case "close":
 		r.ref.beforeClose(r)
+		r.so.opKind = "other"
 		err := r.db.Close()
+		r.so.afterOp(r, "close", err == nil, true, false)
 		r.db = nil
 		if err != nil {
 			return "err " + EngErr(err) + r.takeEvents(true)
@@ -354,7 +364,10 @@ func (r *EngineRunner) Exec(f []string) (res string) {
 	case "put":
 		k, _ := ParseTok(f[2])
 		v, _ := ParseTok(f[3])
+		r.so.opKind = "put"
 		err := r.db.Put(k, v)
+		r.so.afterOp(r, "put", err == nil, len(r.events) > 0, false)
+		r.so.opKind = "other"
 		r.ref.put(r, k, v, err)
 		if err != nil {
 			return "err " + EngErr(err) + r.takeEvents(false)
@@ -362,7 +375,10 @@ func (r *EngineRunner) Exec(f []string) (res string) {
 		return "ok" + r.takeEvents(false)
 	case "del":
 		k, _ := ParseTok(f[2])
+		r.so.opKind = "del"
 		err := r.db.Delete(k)
+		r.so.afterOp(r, "del", err == nil, len(r.events) > 0, false)
+		r.so.opKind = "other"
 		r.ref.del(r, k, err)
 		if err != nil {
 			return "err " + EngErr(err) + r.takeEvents(false)
@@ -417,11 +433,14 @@ func (r *EngineRunner) Exec(f []string) (res string) {
 		return fmt.Sprintf("%d %d %d %d", st.KeyNum, st.DataFileNum, st.ReclaimableSize, st.DiskSize) + r.takeEvents(false)
 	case "sync":
 		err := r.db.Sync()
+		r.so.afterOp(r, "sync", err == nil, true, false)
 		if err != nil {
 			return "err " + EngErr(err) + r.takeEvents(false)
 		}
 		return "ok" + r.takeEvents(false)
 	case "batch":
+		r.batchSync = f[2] == "1"
+		r.so.opKind = "batch"
 		r.batch = r.db.NewBatch(kv.BatchOptions{Sync: f[2] == "1"})
 		r.ref.batchBegin(f[2] == "1")
 		return fmt.Sprintf("%d", r.batch.VerifBatchID())
@@ -456,7 +475,12 @@ func (r *EngineRunner) Exec(f []string) (res string) {
 			// only when the first one was already observed, so a buggy double unlock is a
 			// recovered panic / fatal error of this scenario alone
 		}
+		first := !r.ref.batchCommitted
 		err := r.batch.Commit()
+		if first {
+			r.so.afterOp(r, "commit", err == nil, len(r.events) > 0, r.batchSync)
+		}
+		r.so.opKind = "other"
 		r.ref.commit(r, err)
 		if err != nil {
 			return "err " + EngErr(err) + r.takeEvents(false)
@@ -540,7 +564,7 @@ func RunEngineScript(lines []string, w *bufio.Writer, verbose bool) error {
 		return err
 	}
 	defer os.RemoveAll(root)
-	r := &EngineRunner{Root: root, dirs: map[string]string{}, Verbose: verbose, ref: newRefModel()}
+	r := &EngineRunner{Root: root, dirs: map[string]string{}, Verbose: verbose, ref: newRefModel(), so: newSyncOracle()}
 	r.cur = "db"
 	r.dirs["db"] = filepath.Join(root, "db")
 	r.installHooks()
